@@ -30,8 +30,9 @@ META = dict(
 OBLIGATIONS = [
     "C16_add_rejects_partial", "C16_add_accepts", "C16_add_tail_refuted", "C16_wf_reachable",
     "C16_json_roundtrip", "C16_json_numpy_refuted",
-    "C16_scalar_refuted", "C16_underscore_refuted",
-    "C16_csv_na_id_refuted",
+    "C16_torch_roundtrip", "C16_names_kept",
+    "C16_table_roundtrip_partial", "C16_scalar_refuted", "C16_underscore_refuted",
+    "C16_csv_roundtrip_partial", "C16_csv_na_id_refuted",
     "C16_empty_refuted", "C16_save_load_extension",
 ]
 
@@ -158,7 +159,12 @@ def res_lit(f, enc):
         v = f()
     except Exception as e:  # noqa
         return f"(Err {err_class(e)})", None, e
-    return f"(Ok {enc(v)})", v, None
+    try:
+        return f"(Ok {enc(v)})", v, None
+    except Unencodable:
+        raise
+    except Exception as e:  # noqa  (a result of an unexpected python shape)
+        raise Unencodable(f"{type(e).__name__}: {e}")
 
 
 def table_lit(df) -> str:
@@ -637,7 +643,12 @@ def stream_A(run: Run, n, tmpdir):
     for k in range(n):
         rng = run.rng("A", k)
         ops, intents, shapes, meta = gen_container_ops(run, rng)
-        lit, rec, info = run_container_case(run, ops, intents, shapes, meta, tmpdir, rng)
+        try:
+            lit, rec, info = run_container_case(run, ops, intents, shapes, meta, tmpdir, rng)
+        except Unencodable as ex:
+            run.fail("result-outside-model", f"a conversion returned something the model has no form for ({ex}); e.g. a tensor that is not "
+                     "2-D, a non-string label", dict(ops=[[jsonable(i), jsonable(d)] for i, d in ops]), kind="broken-correspondence")
+            continue
         if lit is None:
             continue
         nontrivial = info.get("outside") or (info.get("nonempty") and (len(ops) > 1 or info["n_params"] > 0))
@@ -652,14 +663,14 @@ def stream_A(run: Run, n, tmpdir):
     bad = run.vm_bad_indices("A", HDR, "caseA", cases, "checkA", shard=150)
     if bad:
         stage_names = {1: "add", 2: "state", 3: "to_dataframe", 4: "from_dataframe", 5: "to_pytorch", 6: "from_pytorch", 7: "json", 8: "csv", 9: "subset"}
-        sub = [cases[i] for i in bad[:60]]
+        sub = [cases[i] for i in bad[:450]]
         stage_of = {}
         for code in stage_names:
             hit = run.vm_bad_indices(f"Astage{code}", HDR, "caseA", sub, f"(fun k => negb (Nat.eqb (checkA_code k) {code}))", shard=150)
             for j in hit or []:
                 stage_of[bad[j]] = stage_names[code]
         for i in bad:
-            st = stage_of.get(i, "unknown")
+            st = stage_of.get(i, "unclassified")
             run.fail(f"model-mismatch:{st}", f"the implementation's result of stage `{st}` differs from the model's (the theorems are about the model)",
                      dict(ops=recs[i]["ops"], subset=recs[i].get("subset")), kind="broken-correspondence")
     return len(cases)
@@ -744,7 +755,12 @@ def stream_C(run: Run, n):
                 lits.append(f"({cs(p)}, T2 {cl([cl([cq(x) for x in r_]) for r_ in rows])})")
             desc[p] = jsonable(d[p])
         run.count("C_kind", kind + ("+wrong-length" if wrong_len else ""))
-        r_l, v, e = res_lit(lambda: IP.from_pytorch(list(ids), d), container_lit)
+        try:
+            r_l, v, e = res_lit(lambda: IP.from_pytorch(list(ids), d), container_lit)
+        except Unencodable as ex:
+            run.fail("result-outside-model", f"from_pytorch returned something the model has no form for ({ex})", dict(ids=jsonable(ids), tensors=desc),
+                     kind="broken-correspondence")
+            continue
         if (kind != "str" or wrong_len) and (v is not None or err_class(e) != "InputError"):
             run.fail("from_pytorch:accepts-bad-input", f"from_pytorch with {kind} identifiers / wrong_length={wrong_len} is not rejected with "
                      "LeaspyIndividualParamsInputError", dict(ids=jsonable(ids), tensors=desc))
@@ -802,7 +818,12 @@ def stream_D(run: Run, n, tmpdir):
         except Exception as e:  # noqa
             w_l = f"(Err {err_class(e)})"
             saved = False
-        b_l, v, e = res_lit(lambda: IP.load(os.path.join(d, path2)), container_lit)
+        try:
+            b_l, v, e = res_lit(lambda: IP.load(os.path.join(d, path2)), container_lit)
+        except Unencodable as ex:
+            run.fail("result-outside-model", f"load returned something the model has no form for ({ex})", dict(path=path, load_path=path2),
+                     kind="broken-correspondence")
+            continue
         if not saved:
             # the model's save_load reports the save error first
             b_l = w_l
